@@ -52,3 +52,23 @@ package keytab
 //@ func (*keytab.Keytab).Unmarshal(kt, b) (err)
 //@   loop 1 invariant 0 <= n && n <= len(b)
 //@   loop 1 decreases len(b) - n
+
+// Key lookup (property C14). kmatch is the matching rule of the property statement: realm, every
+// principal component, encryption type, and key version (any version when 0 is requested).
+//@ define kmatch(e, pn, realm, kvno, et) := e.Principal.Realm == realm && len(e.Principal.Components) == len(pn.NameString)
+//@     && (forall c int :: 0 <= c && c < len(pn.NameString) ==> e.Principal.Components[c] == pn.NameString[c])
+//@     && e.Key.KeyType == et && (kvno == 0 || e.KVNO == uint32(kvno))
+
+//@ func (*keytab.Keytab).GetEncryptionKey(kt, princName, realm, kvno, etype) (key, kv, err)
+//@   pure
+//@   requires 0 <= kvno && kvno < 4294967296
+//@   ensures err == nil ==> exists j int :: 0 <= j && j < len(kt.Entries) && kmatch(kt.Entries[j], princName, realm, kvno, etype)
+//@        && key == kt.Entries[j].Key && kv == int(kt.Entries[j].KVNO)
+//@        && (forall m int :: 0 <= m && m < len(kt.Entries) && kmatch(kt.Entries[m], princName, realm, kvno, etype) ==> !(kt.Entries[m].Timestamp.After(kt.Entries[j].Timestamp)))
+//@   ensures (forall j int :: 0 <= j && j < len(kt.Entries) ==> !kmatch(kt.Entries[j], princName, realm, kvno, etype)) ==> err != nil
+//@   loop 1 invariant -1 <= rangeindex && rangeindex < len(kt.Entries)
+//@   loop 1 invariant len(key.KeyValue) >= 1 ==> exists j int :: 0 <= j && j <= rangeindex && kmatch(kt.Entries[j], princName, realm, kvno, etype)
+//@        && key == kt.Entries[j].Key && kv == int(kt.Entries[j].KVNO) && t == kt.Entries[j].Timestamp
+//@   loop 1 invariant forall m int :: 0 <= m && m <= rangeindex && kmatch(kt.Entries[m], princName, realm, kvno, etype) ==> !(kt.Entries[m].Timestamp.After(t))
+//@   loop 2 invariant -1 <= rangeindex && rangeindex < len(k.Principal.Components)
+//@   loop 2 invariant forall c int :: 0 <= c && c <= rangeindex ==> k.Principal.Components[c] == princName.NameString[c]
